@@ -344,8 +344,15 @@ impl C14 {
 }
 
 fn devfull(kind: Kind, model: &Model) -> Option<std::io::Result<()>> {
-    const P: &str = "/dev/full";
+    fs_write(kind, model, std::path::Path::new("/dev/full"))
+}
+
+/// `<index>::fs::write(path, index)` of the kind's crate.
+fn fs_write(kind: Kind, model: &Model, path: &std::path::Path) -> Option<std::io::Result<()>> {
+    #[allow(non_snake_case)]
+    let P = path;
     Some(match (kind, model) {
+        (Kind::Crai, Model::Crai(i)) => noodles_cram::crai::fs::write(P, i),
         (Kind::Bai, Model::Bai(i)) => noodles_bam::bai::fs::write(P, i),
         (Kind::Csi, Model::Csi(i)) => noodles_csi::fs::write(P, i),
         (Kind::Tabix, Model::Tabix(i)) => noodles_tabix::fs::write(P, i),
@@ -353,6 +360,35 @@ fn devfull(kind: Kind, model: &Model) -> Option<std::io::Result<()>> {
         (Kind::Fai, Model::Fai(i)) => noodles_fasta::fai::fs::write(P, i),
         _ => return None,
     })
+}
+
+/// The real file system with a quota: `fs::write` to a real temporary file while RLIMIT_FSIZE (soft)
+/// caps the file at `budget` bytes — the kernel accepts bytes up to the cap and fails the next write
+/// with EFBIG (SIGXFSZ is ignored). Returns (result of fs::write, bytes the file holds) or None if
+/// the kind has no fs::write.
+fn fs_write_with_quota(kind: Kind, model: &Model, budget: Option<u64>, tag: u64) -> Option<(std::io::Result<()>, u64)> {
+    let path = std::env::temp_dir().join(format!("nsim-quota-{}-{tag}", std::process::id()));
+    let mut old = libc::rlimit { rlim_cur: 0, rlim_max: 0 };
+    if let Some(b) = budget {
+        // SAFETY: plain libc calls on this process' own limits / signal dispositions; the worker is
+        // single-threaded here and writes no other regular file while the limit is lowered
+        unsafe {
+            libc::signal(libc::SIGXFSZ, libc::SIG_IGN);
+            libc::getrlimit(libc::RLIMIT_FSIZE, &mut old);
+            let new = libc::rlimit { rlim_cur: b, rlim_max: old.rlim_max };
+            libc::setrlimit(libc::RLIMIT_FSIZE, &new);
+        }
+    }
+    let r = fs_write(kind, model, &path);
+    if budget.is_some() {
+        // SAFETY: as above
+        unsafe {
+            libc::setrlimit(libc::RLIMIT_FSIZE, &old);
+        }
+    }
+    let len = std::fs::metadata(&path).map(|m| m.len()).unwrap_or(0);
+    let _ = std::fs::remove_file(&path);
+    r.map(|r| (r, len))
 }
 
 impl Check for C14 {
@@ -383,7 +419,7 @@ impl Check for C14 {
             5 | 6 => 2,
             _ => 3,
         };
-        let faults = if round % 12 == 11 && kinds::index_kind(kind) || (round % 12 == 11 && kind == Kind::Fai) {
+        let faults = if round % 12 == 11 && (kinds::index_kind(kind) || matches!(kind, Kind::Fai | Kind::Crai)) {
             Faults::DevFull
         } else {
             Faults::Enumerate { seed: rng.next_u64() }
@@ -475,6 +511,39 @@ impl Check for C14 {
                         Faults::DevFull,
                         &mut findings,
                     );
+                }
+            }
+            // (d') the same call on a real file under a file-size quota that runs out at the end, in
+            // the middle and at the start of the file
+            if let Some((Ok(()), full)) = fs_write_with_quota(kind, &made.model, None, 0) {
+                let mut budgets: Vec<u64> = [0, 1, full / 2, full.saturating_sub(29), full.saturating_sub(28), full.saturating_sub(27), full.saturating_sub(1)]
+                    .into_iter()
+                    .filter(|&b| b < full)
+                    .collect();
+                budgets.sort();
+                budgets.dedup();
+                for (i, b) in budgets.into_iter().enumerate() {
+                    let Some((r, len)) = fs_write_with_quota(kind, &made.model, Some(b), 1 + i as u64) else { break };
+                    ctx.stats.evaluations += 1;
+                    if len > b {
+                        // the quota did not bite (file system without RLIMIT_FSIZE semantics)
+                        ctx.stats.probe("fs_quota_not_effective", 1);
+                        continue;
+                    }
+                    ctx.stats.fault("FS_QUOTA", 1);
+                    ctx.stats.nontrivial(Fnv::new().u64(prng::hash_bytes(&made.bytes)).str("quota").u64(b).get());
+                    if r.is_ok() {
+                        report(
+                            Violation::new(
+                                &format!("{}::fs::write", kind.name()),
+                                "hidden-failure",
+                                "EFBIG",
+                                format!("{}::fs::write(path, index) returned Ok(()) although the file-size limit of {b} bytes left only {len} of the {full} bytes of the index on disk", kind.name()),
+                            ),
+                            Faults::DevFull,
+                            &mut findings,
+                        );
+                    }
                 }
             }
             return findings;
